@@ -355,7 +355,11 @@ func Exec(ctx context.Context, r ociregistry.Interface, op *Op, h *Handles) (res
 	case MountBlob:
 		res.Desc, res.Err = r.MountBlob(ctx, op.Repo2, op.Repo, op.Digest)
 	case PushManifest:
-		res.Desc, res.Err = r.PushManifest(ctx, op.Repo, op.Tag, op.Data, op.MediaType)
+		// The caller owns its buffer again as soon as the call returns: the registry is
+		// handed a scratch copy which is overwritten afterwards.
+		scratch := append([]byte(nil), op.Data...)
+		res.Desc, res.Err = r.PushManifest(ctx, op.Repo, op.Tag, scratch, op.MediaType)
+		scribble(scratch)
 	case DeleteBlob:
 		res.Err = r.DeleteBlob(ctx, op.Repo, op.Digest)
 	case DeleteManifest:
@@ -400,7 +404,9 @@ func Exec(ctx context.Context, r ociregistry.Interface, op *Op, h *Handles) (res
 		res.Chunk = w.ChunkSize()
 	case UpWrite:
 		w := h.W[op.Handle]
-		res.N, res.Err = w.Write(op.Data)
+		scratch := append([]byte(nil), op.Data...)
+		res.N, res.Err = w.Write(scratch) // (io.Writer: "Write must not retain p")
+		scribble(scratch)
 		res.Size = w.Size()
 	case UpClose:
 		w := h.W[op.Handle]
@@ -464,4 +470,11 @@ func ExecOverlapped(ctx context.Context, r ociregistry.Interface, op1, op2 *Op) 
 		}
 	}
 	return res[0], res[1]
+}
+
+// scribble overwrites a buffer the caller has got back.
+func scribble(b []byte) {
+	for i := range b {
+		b[i] = '#'
+	}
 }
